@@ -21,6 +21,7 @@ type Env struct {
 	resolveAddr func(name string) (*Term, bool) // &name: the reference of an address-taken local
 	params  map[string]bool // names in vars that are function parameters (may be shadowed by locals)
 	where   string
+	ctx     []string // functions whose declarations the expression may name (for renamed locals)
 }
 
 func (e *Env) child() *Env {
@@ -109,7 +110,7 @@ func (e *Env) tr(x ast.Expr) *Term {
 	case *ast.UnaryExpr:
 		if x.Op == token.AND {
 			if id, ok := x.X.(*ast.Ident); ok && e.resolveAddr != nil {
-				if t, ok := e.resolveAddr(id.Name); ok {
+				if t, ok := e.resolveAddr(e.g.currentName(e.ctx, id.Name)); ok {
 					return t
 				}
 			}
@@ -157,6 +158,9 @@ func (e *Env) tr(x ast.Expr) *Term {
 				e.fail("no package-level variable %s", x.Sel.Name)
 			}
 			if _, bound := e.lookup(id.Name); !bound {
+				if !e.g.importsPackage(id.Name) {
+					e.fail("unknown identifier %q", id.Name)
+				}
 				name := id.Name + "." + x.Sel.Name
 				return e.g.extGlobal(name)
 			}
@@ -175,6 +179,7 @@ func (e *Env) want(t *Term, s Sort, ctx string) {
 }
 
 func (e *Env) lookup(name string) (*Term, bool) {
+	name = e.g.currentName(e.ctx, name) // a local that was renamed since the contract was written
 	if t, ok := e.vars[name]; ok {
 		// a parameter may be shadowed by a local of the same name (e.g. `for _, stage := range ...`): the local wins
 		// where a resolver for locals is available
